@@ -295,6 +295,9 @@ def step_function(times, values, name=None, fill=0):
     if name is None:
         name = 'step%d' % step_function.counter
         step_function.counter += 1
+    # Keep our own copy of the knots: the function is defined by the values
+    # passed in, and must not change if the caller re-uses these sequences
+    times, values = list(times), list(values)
 
     def _imp(x):
         x = np.asarray(x)
